@@ -340,6 +340,57 @@ def shared_recipient_header(ctx, rng):
                               f"recipients able to decrypt {who}; per-recipient headers emitted {[r.get('header') for r in o.value['recipients']]!r}"[:600], {**case, "token": o.value})
 
 
+def same_object_edited_between(ctx, rng):
+    """one JSON encryption object encrypted, edited in place by the caller (another iteration count, another algorithm for the same key, another protected
+    member) and encrypted again: the second token is made with the headers as they are then - it decrypts, and what it says is what was used"""
+    j = J.load()
+    pt = b"c04 edited between"
+    rsa = gen.new_rsa(2048)
+    pw = gen.new_oct(256)
+    plans = [("PBES2-HS256+A128KW", pw, {"p2s": "c2FsdC1zYWx0LXNhbHQ", "p2c": 1000}, ("header", "p2c", 1500)),
+             ("PBES2-HS512+A256KW", pw, {"p2s": "c2FsdC1zYWx0LXNhbHQ", "p2c": 1000}, ("header", "p2s", "YW5vdGhlci1zYWx0LXZhbHVl")),
+             ("PBES2-HS256+A128KW", pw, {"p2s": "c2FsdC1zYWx0LXNhbHQ", "p2c": 1000}, ("header", "alg", "PBES2-HS384+A192KW")),
+             ("RSA-OAEP", rsa, {}, ("header", "alg", "RSA-OAEP-256")), ("RSA-OAEP-256", rsa, {}, ("header", "alg", "RSA1_5")),
+             ("A256KW", pw, {}, ("header", "alg", "A256GCMKW")), ("A256KW", pw, {}, ("protected", "cty", "edited")), ("dir", pw, {}, ("protected", "enc", "A128CBC-HS256")),
+             ("A256KW", pw, {}, ("unprotected", "jku", "https://example.com/other")), ("ECDH-ES+A128KW", gen.new_ec("P-256"), {}, ("header", "alg", "ECDH-ES+A256KW")),
+             ("ECDH-ES+A128KW", gen.new_ec("P-256"), {}, ("header", "apu", "QWxpY2U"))]
+    for alg, key, extra, (where, member, newval) in plans:
+        for form in ("flattened", "general"):
+            ctx.ev()
+            enc = "A256GCM"
+            allow = sorted({alg, enc, "A128CBC-HS256"} | ({newval} if member == "alg" else set()))
+            cls = j.jwe.FlattenedJSONEncryption if form == "flattened" else j.jwe.GeneralJSONEncryption
+            obj = cls({"enc": enc}, pt, {"jku": "https://example.com/k"})
+            obj.add_recipient({"alg": alg, **extra}, j.key(gen.public_jwk(key)))
+            t1 = call(j.jwe.encrypt_json, obj, None, algorithms=allow)
+            if not t1.ok:
+                ctx.count("edited_between_first_failed")
+                continue
+            target = {"header": obj.recipients[0].header, "protected": obj.protected, "unprotected": obj.unprotected}[where]
+            target[member] = newval
+            t2 = call(j.jwe.encrypt_json, obj, None, algorithms=allow)
+            ctx.count("same_object_edited_between")
+            ctx.nontrivial(("edited-between", alg, form, where, member))
+            ctx.cell("edited-between", alg, form)
+            case = {"edited_between": True, "alg": alg, "form": form, "edit": [where, member, newval]}
+            if not t2.ok:
+                ctx.open(f"second-encryption-after-an-edit-refused:{t2.etype}")
+                continue
+            tok = t2.value
+            import base64
+            prot = json.loads(base64.urlsafe_b64decode(tok["protected"] + "=" * (-len(tok["protected"]) % 4)))
+            rh = (tok.get("header") if form == "flattened" else tok["recipients"][0].get("header")) or {}
+            seen = {"header": rh, "protected": prot, "unprotected": tok.get("unprotected") or {}}[where].get(member)
+            if seen != newval:
+                ctx.violation("edited-header-not-in-second-token", f"{alg} ({form}): the caller set {where}[{member!r}] = {newval!r} before encrypting the object again, the token "
+                              f"carries {seen!r}", {**case, "token": tok})
+                continue
+            d = call(j.jwe.decrypt_json, copy.deepcopy(tok), j.key(key), algorithms=allow)
+            if not d.ok or d.value.plaintext != pt:
+                ctx.violation("token-of-second-call-does-not-decrypt:edited-between", f"{alg} ({form}): after the caller set {where}[{member!r}] = {newval!r} the object was encrypted "
+                              f"again; the token says {member}={seen!r} but does not decrypt with it: {d.exc!r}", {**case, "token": tok})
+
+
 def forbidden_cells(ctx, rng):
     """combinations the specifications forbid must be refused at encryption time"""
     j = J.load()
@@ -422,6 +473,10 @@ def forced(tier):
         for plain in ("big255999", "big256000"):
             if tier == "thorough" or (i in (0, 5) and plain == "big256000"):
                 limit_cells.append(dict(plain=plain, enc=enc, zip_=True, alg="dir", form="compact" if i % 2 == 0 else "flattened"))
+    # ... and plaintexts at the limit that do not compress (the DEFLATE stream is then longer than the limit itself)
+    for i, plain in enumerate(("rnd256000", "rnd255921", "rnd255999", "rnd250000")):
+        if tier == "thorough" or i < 2:
+            limit_cells.append(dict(plain=plain, enc=g.ENCS[i % len(g.ENCS)], zip_=True, alg="dir", form="compact" if i % 2 == 0 else "flattened"))
     return limit_cells + cells
 
 
@@ -440,6 +495,8 @@ def run_shard(ctx):
         import_order_cases(ctx)
     if ctx.shard == 5:
         shared_recipient_header(ctx, rng)
+    if ctx.shard == 6:
+        same_object_edited_between(ctx, rng)
     fc = forced(ctx.tier)
     for idx, kw in enumerate(fc):
         if idx % ctx.nshards != ctx.shard:
